@@ -16,6 +16,12 @@ R18e number syntax: the language of the float group contains every decimal liter
      with optional fraction or a leading-dot fraction, optional exponent (the recovered value is converted with float()).
 R18f the two right-hand-side alternatives (value unit / value) are disjoint: the with-unit pattern is tried first, so a unit-less
      value that it also matches is split into a shorter value and a unit that was never written.
+R18g the line grammar covers the well-formed forms of each part (regex-AST / language facts, nothing is matched at run time):
+     the threshold group contains every unsigned decimal literal float() converts (`5`, `5.`, `5.0`, `.5`); one or more
+     blanks may separate the threshold from the name; the first character of the name may be any letter, not only an ASCII
+     one (uod command names are unrestricted); and after the name the grammar can consume a bare `:` followed directly by a
+     comment (the tail language contains `:# c` and `: # c` - pattern.match is not anchored at the end, so an unconsumed rest
+     is dropped silently and the comment is lost).
 Decides grammar-level facts for all lines; recovery of concrete tag names/values is value-level.
 """
 from __future__ import annotations
@@ -30,6 +36,33 @@ from ..util import call_attr
 
 EXPLANATION = __doc__
 PARSER = "openpectus.lang.model.parser"
+
+
+def _group_text(pattern: str, name: str) -> str | None:
+    """Source text of the named group's body (balanced parentheses, escapes and classes skipped)."""
+    key = f"(?P<{name}>"
+    i = pattern.find(key)
+    if i < 0:
+        return None
+    j = i + len(key)
+    depth, k, in_cls = 1, j, False
+    while k < len(pattern):
+        c = pattern[k]
+        if c == "\\":
+            k += 2
+            continue
+        if in_cls:
+            in_cls = c != "]"
+        elif c == "[":
+            in_cls = True
+        elif c == "(":
+            depth += 1
+        elif c == ")":
+            depth -= 1
+            if depth == 0:
+                return pattern[j:k]
+        k += 1
+    return None
 
 
 def _groups(pattern: str):
@@ -227,17 +260,62 @@ def run(ctx) -> None:
                 ctx.fail("R18b", None, gram.node, inst, f"the {gname} part could swallow '{ch}': name/argument/comment are no longer "
                          "separated exactly", function=gram.qualname, file=gram.module.relpath)
     arg_re = fold_str(prog, gram, gram.class_attrs["argument_re"])
-    if arg_re.startswith("(: (?P<argument>"):
+    import re as _re1
+    from ..regexlang import difference as _diff1
+    _arg_plain = _re1.sub(r"\(\?P<\w+>", "(", arg_re)
+    if "argument" in _groups(arg_re)[1] and _diff1(_arg_plain, r"(:( [^#]+)?)?", [":", " ", "a", "#"], only="1-2") is None \
+            and _diff1(r"(: [^#]+)?", _arg_plain, [":", " ", "a", "#"], only="1-2") is None:
         ctx.ok("R18b", "argument is introduced by the literal ': '")
     else:
         ctx.fail("R18b", None, gram.node, "argument is introduced by the literal ': '", f"argument_re is {arg_re!r}",
                  function=gram.qualname, file=gram.module.relpath)
     thr_re = fold_str(prog, gram, gram.class_attrs["threshold_re"])
-    if thr_re.endswith(r"\s)?") and r"\d+(\.\d+)?" in thr_re:
+    import re as _re0
+    from ..regexlang import difference as _diff0
+    _thr_group = _find_group(sre_parse.parse(thr_re), _groups(thr_re)[1].get("threshold", -1))
+    _thr_txt = _group_text(thr_re, "threshold")
+    _m = _re0.match(r"(.*)", _thr_txt) if _thr_txt is not None else None
+    # float(threshold) in _parse_line is total iff the group's language is inside the decimal literals float() converts
+    _safe = _m is not None and _diff0(_m.group(1), r"[+-]?(\d+(\.\d*)?|\.\d+)([eE][+-]?\d+)?", ["5", ".", "+", "-", "e", " ", "x"], only="1-2") is None
+    if _thr_group is not None and _safe:
         ctx.ok("R18b", "threshold is a decimal number followed by whitespace")
     else:
         ctx.fail("R18b", None, gram.node, "threshold is a decimal number followed by whitespace", f"threshold_re is {thr_re!r}",
                  function=gram.qualname, file=gram.module.relpath)
+    # ---- R18g
+    ctx.rule("R18g", "the line grammar covers the well-formed forms of threshold, separator, name start and empty argument")
+    G = dict(function=gram.qualname, file=gram.module.relpath)
+    inst = "threshold group contains every unsigned decimal literal float() converts"
+    w = _diff0(r"\d+(\.\d*)?|\.\d+", _m.group(1), ["5", ".", " ", "x"], only="1-2") if _m else ("?", True, False)
+    if w is None:
+        ctx.ok("R18g", inst)
+    else:
+        ctx.fail("R18g", None, gram.node, inst, f"the threshold `{w[0]}` is a number but not to threshold_re ({thr_re}): the line does not "
+                 "match at all (no name, no argument, column 0) or the number becomes part of the instruction name", **G)
+    inst = "one or more blanks may separate threshold and instruction name"
+    if _diff0(r"(5+ +)?", _re0.sub(r"\(\?P<\w+>", "(", thr_re), ["5", " ", "."], only="1-2") is None:
+        ctx.ok("R18g", inst)
+    else:
+        ctx.fail("R18g", None, gram.node, inst, f"threshold_re ({thr_re}) allows exactly one blank after the number and the name must start "
+                 "on a word character: `1.0  Mark: A` loses its threshold, the name becomes `1.0  Mark`", **G)
+    inst = "the instruction name may start with any letter"
+    name_sub = _find_group(tree, groups["instruction_name"])
+    first = [it for it in name_sub if it[0] is not sre_c.AT][:1]
+    if first and all(_can_match_char(first, ch) for ch in "aZ_\u00d8\u00b5\u00e9"):
+        ctx.ok("R18g", inst)
+    else:
+        ctx.fail("R18g", None, gram.node, inst, "the first character of the name is restricted to ASCII word characters while uod command "
+                 "names are unrestricted: `\u00d8kse: 5` does not match (error node, no parts); with a threshold the number is glued to the name", **G)
+    inst = "a bare ':' directly followed by a comment is consumed (the comment is kept)"
+    strip_names0 = lambda pat: _re0.sub(r"\(\?P<\w+>", "(", pat)
+    tail = strip_names0(fold_str(prog, gram, gram.class_attrs["argument_re"]) + fold_str(prog, gram, gram.class_attrs["comment_re"]))
+    w = _diff0(r"(:( [^#]+)?)? *# *[^#]*", tail.replace("$", ""), [":", " ", "#", "c"], only="1-2")
+    if w is None:
+        ctx.ok("R18g", inst)
+    else:
+        ctx.fail("R18g", None, gram.node, inst, f"after the name the grammar cannot consume `{w[0]}`: argument_re needs a character after "
+                 "': ' and the comment cannot start at the colon; the match simply ends there (it is not anchored at the end) and the "
+                 "comment of `Mark: # c` is lost", **G)
     # ---- R18c
     # the pattern actually applied to the right-hand side of a condition
     unit_re = fold_str(prog, gram, gram.class_attrs["condition_rhs_re"])
